@@ -70,6 +70,25 @@ where
             self.set_current_frame(Some(mapped_index));
         }
 
+        // an input-value entry inside the retained prefix stays where it is, but get_current_value_mut lets a
+        // host point it at newer data, which is about to move: follow it
+        let mut value_entry = original_value;
+        while let Some(entry) = value_entry {
+            let (previous, value) = match self.get_from_data_block_ensure_index(entry)? {
+                BasicData::Value(previous, value) => (Some(*previous), *value),
+                BasicData::ValueRoot(value) => (None, *value),
+                _ => break,
+            };
+            if entry < self.data_retention_count() && value >= self.data_retention_count() {
+                let mapped_index = self.lookup_in_data_slice(index_list_lookup_start, index_list_end, value)?;
+                match self.get_from_data_block_ensure_index_mut(entry)? {
+                    BasicData::Value(_, value) | BasicData::ValueRoot(value) => *value = mapped_index,
+                    _ => {}
+                }
+            }
+            value_entry = previous;
+        }
+
         let mut mapped_indexes = vec![0; additional_data_retentions.len()];
         for (i, additional_data_retention) in additional_data_retentions.iter().enumerate() {
             mapped_indexes[i] = self.lookup_in_data_slice(index_list_lookup_start, index_list_end, *additional_data_retention)?;
